@@ -141,11 +141,11 @@ def run_config(chk, ctx, name):
             return getattr(chk, nm)
 
         def ob(self, rule, instance, ok, detail="", where=None, key=None, sample=False):
-            if rule.startswith(("T1.", "T3.", "T4.")):
+            if rule.startswith("T1."):
                 chk.ob("H6." + rule, instance, ok, detail, where=where, key=key)
     c12.table_rules(OnlyT1(), F, A, an, tag)
-    # the digit / checksum / chain-range roles of RFC 8554 sections 4.4-4.6 (structure; the arithmetic identity is C12's)
-    c12.role_rules(OnlyT1(), F, A, tag)
+    # (the digit / checksum / chain-range role rules stay with C12: they are tied to the present shape of the checksum routine, and
+    # a behaviour-preserving rewrite of it must not make C07 alarm as well)
 
     class OnlyP1:
         """C03's provenance rules for the per-level key generation (level i signs with its own leaf and its own parameter set:
@@ -183,7 +183,7 @@ def run(chk, ctx):
     configs = ["default"] if ctx.tier == "quick" else ["default", "std", "fast_verify"]
     for name in configs:
         run_config(chk, ctx, name)
-    chk.floor("hash_sessions", 25)
+    chk.floor("hash_sessions", 15)
     chk.floor("reference_patterns_checked", 5)
     chk.floor("serialisers_checked", 6)
     chk.floor("lms_sign_call_sites", 2)
